@@ -139,6 +139,10 @@ def falsy_configs(tier, algs=ALL):
                 for purge in ((False,) if alg in ('no', 'inf') else (False, True)):
                     for init in (('empty',) if tier == 'quick' else ('empty', 'seeded_archive')):
                         cfgs.append(C(mod, alg, ms, purge, 'default', 'dict', init, result='falsy'))
+            # ... and in a store that has to tell "holds None" from "holds nothing" on disk
+            if alg in ('lru', 'no', 'rr') or tier == 'thorough':
+                for b in (('dir',) if tier == 'quick' else ('dir', 'sql', 'file')):
+                    cfgs.append(C(mod, alg, None if alg in ('no', 'inf') else 1, False, 'str', b, result='falsy', nargs=2, spellings=1))
     return cfgs
 
 
@@ -208,6 +212,14 @@ def m_C06(tier):
                 cfgs.append(C(mod, alg, ms, True, 'default', 'dict', nargs=ms + 2, spellings=0,
                               narrow=[['arch', False], ['arch', True]], depth=7 if tier == 'quick' else 8,
                               states=2500 if tier == 'quick' else 30000))
+    # "a hit never removes anything" also holds when the cache is over its bound (after a bulk load): calls + load/dump,
+    # judged for hits only (the policy itself is undefined for entries the bookkeeping never saw)
+    for mod in MODULES:
+        for alg in BOUNDED:
+            for ms in ((1,) if tier == 'quick' else (1, 2)):
+                for purge in (False, True):
+                    cfgs.append(C(mod, alg, ms, purge, 'default', 'dict', 'seeded_archive', nargs=3, spellings=0, hits_only=True,
+                                  depth=4 if tier == 'quick' else 5, states=600 if tier == 'quick' else 6000))
     cfgs += [c for c in longuse_configs(tier, deep=True) if c['longuse'] == 'cycles']
     cfgs += scale_configs(tier)
     cfgs += rebuilt_configs(tier, 'C06')
@@ -342,6 +354,13 @@ def m_C07(tier):
                 for purge in ((False,) if alg == 'no' else (False, True)):
                     cfgs.append(C(mod, alg, None if alg == 'no' else 1, purge, 'str', b, nargs=2, spellings=1))
     cfgs += falsy_configs(tier, BOUNDED + ('no',))
+    # an archive that cannot store one particular result (the write raises): the victim must not have left memory
+    # (not for no_cache: with maxsize 0 a result the archive refuses has nowhere to stay)
+    for mod in MODULES:
+        for alg in BOUNDED:
+            for purge in (False, True):
+                cfgs.append(C(mod, alg, 1, purge, 'default', 'refusing', nargs=3, spellings=0,
+                              depth=5, states=800 if tier == 'quick' else 5000))
     cfgs += longuse_configs(tier, backends=('dict',))
     # larger maxsize with an archive attached (LFU evicts maxsize // 10 entries at a time there)
     cfgs += [dict(c, states=150 if tier == 'quick' else 3000) for c in scale_configs('thorough')
@@ -474,6 +493,8 @@ def m_C20(tier):
 def ev_for(prop, cfg, tier):
     n = cfg.get('nargs', 3)
     sp = cfg.get('spellings', 2)
+    if cfg.get('hits_only'):
+        return call_events(n, sp) + [('load',), ('dump',), ('arch', False), ('arch', True)]
     if cfg.get('longuse'):
         ms = cfg['maxsize']
         if cfg['longuse'] == 'cycles':
@@ -584,6 +605,9 @@ def twin_configs(tier):
             ms = None if alg in ('no', 'inf') else 2
             for backend in (('none', 'dict') if tier == 'quick' else ('none', 'dict', 'plaindict')):
                 cfgs.append(C(mod, alg, ms, False, 'default', backend, nargs=3, spellings=2, twin=True, **lim))
+            # each function with its own default (unnamed, in-memory) sql archive: two such archives are two databases
+            if alg in ('lru', 'no', 'inf') or tier == 'thorough':
+                cfgs.append(C(mod, alg, ms, False, 'str', 'sqlmem', nargs=2, spellings=1, twin=True, **lim))
             cfgs.append(C(mod, alg, ms, False, 'default', 'none', nargs=3, spellings=2, twin='same-decorator', **lim))
             cfgs.append(C(mod, alg, ms, False, 'default', 'none', nargs=3, spellings=2, twin='constructed-first', **lim))
             if tier == 'thorough':
